@@ -75,6 +75,32 @@ PinnedKey(k) ==
     [] k.t = "n" -> k.k = "i"
     [] OTHER -> FALSE
 
+\* ---- benign operands: an operand list on which operator k succeeds for every accepted count
+S_a == <<97>>
+S_abc == <<97, 98, 99>>
+S_hello == <<104, 233, 108, 108, 111>>
+NumsA == <<IntV(1), IntV(2), IntV(3), IntV(4), IntV(5), IntV(6), IntV(7)>>
+NumsB == <<IntV(0), IntV(-1), IntV(2), IntV(9), IntV(1), IntV(1), IntV(3)>>
+NumsC == <<IntV(7), IntV(7), IntV(7), IntV(7), IntV(7), IntV(7), IntV(7)>>
+Nums(v) == IF v = 1 THEN NumsA ELSE IF v = 2 THEN NumsB ELSE NumsC
+SumExpr == Op(K_add, <<VarOf(S_current), VarOf(S_accumulator)>>)
+Arr12 == Arr(<<IntV(1), IntV(2)>>)
+
+\* a benign operand for operator k at position j (variant v): the operation succeeds for every accepted count
+BenignAt(k, j, v) ==
+  CASE k = K_in /\ j = 1 -> Str(S_a)
+    [] k = K_in /\ j = 2 -> IF v = 1 THEN Str(S_abc) ELSE Arr(<<Str(S_a)>>)
+    [] k = K_substr /\ j = 1 -> Str(S_hello)
+    [] k = K_var /\ j = 1 -> IF v = 1 THEN Str(S_a) ELSE IF v = 2 THEN IntV(0) ELSE Null
+    [] k = K_missing -> IF v = 1 THEN Str(S_a) ELSE Str(<<98, 46, 48>>)
+    [] k = K_missing_some /\ j = 2 -> Arr(<<Str(S_a), Str(<<120>>)>>)
+    [] k \in {K_map, K_filter, K_all, K_some, K_none, K_reduce} /\ j = 1 -> IF v = 3 THEN Null ELSE Arr12
+    [] k \in {K_map, K_filter, K_all, K_some, K_none} /\ j = 2 -> IF v = 1 THEN VarOf(<<>>) ELSE IntV(1)
+    [] k = K_reduce /\ j = 2 -> SumExpr
+    [] OTHER -> Nums(v)[j]
+Benign(k, n, v) == [j \in 1..n |-> BenignAt(k, j, v)]
+
+
 \* the 35 operator names in a fixed order
 OpSeq == <<K_eq, K_ne, K_seq, K_sne, K_not, K_notnot, K_lt, K_lte, K_gt, K_gte, K_add, K_sub, K_mul, K_div, K_mod,
            K_max, K_min, K_merge, K_in, K_cat, K_substr, K_log, K_var, K_missing, K_missing_some,
